@@ -93,7 +93,7 @@ func Main(args []string) int {
 		time.Sleep(time.Duration(sleepMs) * time.Millisecond)
 	}
 	if sleepIf != "" && exists(filepath.Join(root, sleepIf)) {
-		time.Sleep(600 * time.Second)
+		time.Sleep(20 * time.Second)
 	}
 	ins, err := spec.ResolveInputsDisk(cwd, t)
 	if err != nil {
@@ -119,10 +119,16 @@ func Main(args []string) int {
 	}
 	dep := spec.DepDigest(views)
 	sort.Strings(viewStr)
-	if omitIf == "" || !exists(filepath.Join(root, omitIf)) {
+	if omitIf != "" && exists(filepath.Join(root, omitIf)) {
+		// leave every declared output missing
+		for _, o := range t.AllOuts() {
+			_ = os.RemoveAll(spec.OutAbs(root, t.Pkg, o.Path))
+		}
+	} else {
 		outs := spec.Produce(t, in, dep)
 		for _, o := range t.AllOuts() {
 			if o.Path == omit {
+				_ = os.RemoveAll(spec.OutAbs(root, t.Pkg, o.Path))
 				continue
 			}
 			if err := outs[o.Path].Materialize(spec.OutAbs(root, t.Pkg, o.Path)); err != nil {
